@@ -1045,9 +1045,36 @@ class Inliner:
                 u_ = unwrap(u_.get("e"))
             if isinstance(u_, dict) and u_.get("k") == "Ref" and u_.get("d") == "func" and isinstance(u_.get("callee"), dict):
                 fmap[pmap[p_.get("id")]] = u_["callee"]
-        if not fmap:
-            return False
+        # pointers to data members: `this->*table`, `item.*field` with the parameter bound to `&Class::member`
+        dmap = {}
+        for p_, a_ in zip(params, args):
+            u_ = unwrap(a_)
+            while isinstance(u_, dict) and u_.get("k") == "Cast":
+                u_ = unwrap(u_.get("e"))
+            if isinstance(u_, dict) and u_.get("k") == "Un" and u_.get("op") == "&":
+                r_ = unwrap(u_.get("e"))
+                if isinstance(r_, dict) and r_.get("k") == "Ref" and r_.get("d") == "Field" and r_.get("qn"):
+                    dmap[pmap[p_.get("id")]] = r_
         hit = False
+        if dmap:
+            for n in walk(body_i):
+                if n.get("k") == "Bin" and n.get("op") in (".*", "->*"):
+                    r_ = unwrap(n.get("rhs"))
+                    while isinstance(r_, dict) and r_.get("k") == "Cast":
+                        r_ = unwrap(r_.get("e"))
+                    if isinstance(r_, dict) and r_.get("k") == "Ref" and r_.get("id") in dmap:
+                        fld = dmap[r_["id"]]
+                        base = n.get("lhs")
+                        arrow = n["op"] == "->*"
+                        t_ = n.get("t")
+                        l_ = n.get("l")
+                        n.clear()
+                        n.update({"k": "Member", "field": True, "n": fld["n"], "cls": fld["qn"].rsplit("::", 1)[0], "base": base, "t": t_, "l": l_})
+                        if arrow:
+                            n["arrow"] = True
+                        hit = True
+        if not fmap:
+            return hit
         for n in walk(body_i):
             if n.get("k") in ("Call", "MCall") and isinstance(n.get("fn"), dict) and not n.get("callee"):
                 f_ = unwrap(n["fn"])
